@@ -15,27 +15,28 @@ import (
 
 type Clause struct {
 	Callee string // assert@<callee>: ghost assertion placed before calls to a callee whose name contains this
-	Kind  string // requires ensures modifies emits calls invariant assigns
-	Label string
-	Props []string
-	E     *Expr
-	Mods  []*Expr // modifies targets
-	Text  string
-	Loop  int
-	File  string
-	Line  int
+	Kind   string // requires ensures modifies emits calls invariant assigns
+	Label  string
+	Props  []string
+	E      *Expr
+	Mods   []*Expr // modifies targets
+	Text   string
+	Loop   int
+	File   string
+	Line   int
 }
 
 type Contract struct {
-	Key     string // pkg.Recv.Name as produced by fnName
-	Params  []string
-	Results []string
-	Clauses []*Clause
-	Serves  []string // properties whose cone contains this contract as a whole
-	Trusted bool     // "trusted": contract is assumed, body not verified (listed in evidence)
-	Layer   string
-	File    string
-	Line    int
+	Key      string // pkg.Recv.Name as produced by fnName
+	Params   []string
+	Results  []string
+	Clauses  []*Clause
+	Serves   []string // properties whose cone contains this contract as a whole
+	Nullable []string // pointer parameters that may be nil (query requests)
+	Trusted  bool     // "trusted": contract is assumed, body not verified (listed in evidence)
+	Layer    string
+	File     string
+	Line     int
 }
 
 func (c *Contract) byKind(k string) []*Clause {
@@ -60,7 +61,7 @@ type Lemma struct {
 
 var propRe = regexp.MustCompile(`C[0-9]{2}`)
 var headRe = regexp.MustCompile(`^func\s+(?:\(\s*\*?\s*([A-Za-z_][A-Za-z0-9_]*)\s*\)\s*)?([A-Za-z_][A-Za-z0-9_$]*)\s*\(([^)]*)\)\s*(?:\(([^)]*)\))?\s*$`)
-var clauseRe = regexp.MustCompile(`^(requires|ensures|modifies|emits|calls|invariant|assigns|trusted|layer|loop|serves|defines|assert@[A-Za-z0-9_.]+)\s*(?:\[([^\]]*)\])?\s*(.*)$`)
+var clauseRe = regexp.MustCompile(`^(requires|ensures|modifies|emits|calls|invariant|assigns|trusted|layer|loop|serves|defines|nullable|assert@[A-Za-z0-9_.]+)\s*(?:\[([^\]]*)\])?\s*(.*)$`)
 
 type ContractFile struct {
 	Contracts []*Contract
@@ -238,6 +239,9 @@ func ParseContractFile(path string) (*ContractFile, error) {
 			continue
 		case "serves":
 			cur.Serves = append(cur.Serves, propRe.FindAllString(rest, -1)...)
+			continue
+		case "nullable":
+			cur.Nullable = append(cur.Nullable, splitNames(rest)...)
 			continue
 		case "loop":
 			// "loop N invariant[label] expr" or "loop N assigns a, b"
